@@ -115,6 +115,43 @@ def run(ctx):
         record(t, meta, {"src": "random", "version": v, "mode": st.get("mode", "hash"),
                          "policy": type(pol).__name__})
     res.coverage["random_requests"] = n_rand
+    # chains of related requests on the same manager: each differs from its predecessor in exactly one part
+    # (what the host remembers of one request - an encoded proof, a cleared transaction, a path - must not
+    # be what the device is handed for the next)
+    import copy
+    n_chain = ctx.pick(70, 2000)
+    n_links = 0
+    for i in range(n_chain):
+        req, st = reqs.make(ctx.rng.choice(["sign_legacy", "sign_segwit"]), ctx.rng)
+        for link in range(4):
+            if link > 0:
+                req, st = copy.deepcopy(req), copy.deepcopy(st)
+                what = ctx.rng.choice(["proof", "receipt", "input", "tx", "key", "same", "proof"])
+                if what == "proof":
+                    st["proof"] = reqs.merkle_proof(ctx.rng)
+                    req["auth"]["receipt_merkle_proof"] = [n.hex() for n in st["proof"]]
+                elif what == "receipt":
+                    st["receipt"] = reqs.receipt(ctx.rng)
+                    req["auth"]["receipt"] = st["receipt"].hex()
+                elif what == "input":
+                    st["input"] = ctx.rng.choice([0, 1, 2 ** 32 - 1, ctx.rng.randrange(2 ** 32)])
+                    req["message"]["input"] = st["input"]
+                elif what == "tx":
+                    other = reqs.make("sign_legacy", ctx.rng)[1]
+                    st["tx"] = other["tx"]
+                    req["message"]["tx"] = enc.tx_bytes(st["tx"]).hex()
+                elif what == "key":
+                    from ..simdev import AUTH_PATHS, PATHS
+                    st["key"] = [k for k in AUTH_PATHS if k != st["key"]][0]
+                    req["keyId"] = PATHS[st["key"]]
+            else:
+                what = "first"
+            sizes = random.Random(ctx.rng.random())
+            pol = FaithfulSignPolicy(size=lambda part, remaining: sizes.randint(1, min(255, max(1, remaining))))
+            t, meta = bench.run(req, st, pol, ctx.rng, coop=True)
+            record(t, meta, {"src": "chain", "version": 2, "mode": st.get("mode"), "link": link, "changed": what})
+            n_links += 1
+    res.coverage["chained_requests"] = n_links
     res.coverage["model_drift"] = drift
     verdicts, stats = tlc.validate("TraceSignExchange", "Trace_SignExchange.cfg", traces, shards=14)
     res.checker_cmds.append("tlc -workers 1 -config Trace_SignExchange.cfg TraceSignExchange (x%d shards)" % stats["jvms"])
